@@ -1,5 +1,8 @@
 use std::borrow::Cow;
+#[cfg(not(prqlc_verif))]
 use std::collections::HashSet;
+#[cfg(prqlc_verif)]
+use prqlc_parser::verif_hash::HashSet;
 use std::sync::OnceLock;
 
 use regex::Regex;
